@@ -29,10 +29,14 @@ def run_seed(sid):
         caught, missed = [], []
         for p in plist:
             raw = f'{tmp}/{p}.json'
-            subprocess.run([f'{ROOT}/bin/omnilint', '-prop', p, '-repo', f'{tmp}/repo', '-verif', ROOT, '-raw', raw], env=env, capture_output=True)
-            try:
-                o = json.load(open(raw))
-            except Exception as e:
+            o = None
+            for attempt in range(3):
+                subprocess.run([f'{ROOT}/bin/omnilint', '-prop', p, '-repo', f'{tmp}/repo', '-verif', ROOT, '-raw', raw], env=env, capture_output=True)
+                try:
+                    o = json.load(open(raw)); break
+                except Exception as e:
+                    o = None
+            if o is None:
                 missed.append(p); continue
             if o.get('fatal'):
                 caught.append({'property': p, 'rule': 'fatal', 'construct_contains': '', 'detail': o['fatal'][:200]}); continue
